@@ -7,6 +7,7 @@ pattern has exactly as many; with fewer, Go panics and the model says so).
 import DtailModel.Generated.Code
 import DtailModel.Lemmas.GoRT
 import DtailModel.Lemmas.GlobID
+set_option autoImplicit false
 namespace Dtail.GenGlobID
 open Dtail Dtail.Go Dtail.Gen.Handlers
 
